@@ -159,6 +159,15 @@ def flip_case(rng, name):
 FLAG_ORDER = ("qr", "opcode", "aa", "tc", "rd", "ra", "z", "ad", "cd", "rcode")
 
 
+def dns_case_nongating(p):
+    """True when the case contains an owner name outside the property's quantifier"""
+    if p["op"] == "dns_build":
+        return any(o["k"] != "opt" and name_class_of(unhx(o["name"])) in ("root", "overlong") for o in p["ops"])
+    if p["op"] == "dns_name":
+        return name_class_of(unhx(p["name"])) in ("root", "overlong")
+    return False
+
+
 def payload_of(p):
     w = W()
     op = p["op"]
@@ -168,6 +177,7 @@ def payload_of(p):
         for f in FLAG_ORDER:
             w.u8(p["flags"][f])
         w.u32(p["bufsize"]).u8(p["fill"]).blob(unhx(p["find"])).u16(len(p["ops"]))
+        w.u8(0 if dns_case_nongating(p) else 1)
         for o in p["ops"]:
             if o["k"] == "q":
                 w.u8(1).blob(unhx(o["name"])).u16(o["type"]).u16(o["cls"])
@@ -898,3 +908,547 @@ def gen_rad_verify_set(rng, thorough):
             out.append(dict(base, pkt=hx(q), what="corrupt", pos=pos, mask=mask, posclass=pos_class(pkt, pos),
                             right_key=hx(secret)))
     return out
+
+
+# ----------------------------------------------------------------------------
+# RADIUS evaluation
+# ----------------------------------------------------------------------------
+def _read_list(r):
+    n = r.u16()
+    out = []
+    for _ in range(n):
+        t = r.u8()
+        off = r.u32()
+        out.append((t, r.blob(), off))
+    return out
+
+
+def read_rad_build(obs, nattrs):
+    r = R(obs)
+    o = dict(init_rc=r.i32(), init_size=r.u64())
+    if o["init_rc"] != 0:
+        o["buf"] = r.blob()
+        return o
+    o["attrs"] = [(r.i32(), r.u64(), r.u64(), r.u16()) for _ in range(nattrs)]
+    o["pre"] = r.blob()
+    o["chk_pre"] = r.i32()
+    o["list_pre"] = _read_list(r)
+    o["sign_rc"] = r.i32()
+    o["sign_size"] = r.u64()
+    o["post"] = r.blob()
+    o["chk_post"] = r.i32()
+    o["list_post"] = _read_list(r)
+    o["recv"] = r.u8()
+    if o["recv"]:
+        o["r_chk"] = r.i32()
+        o["calc_rc"] = r.i32()
+        o["calc"] = r.b[r.o:r.o + 16]
+        r.o += 16
+        o["verify"] = r.i32()
+        o["pw_present"] = r.u8()
+        if o["pw_present"]:
+            o["pw_rc"] = r.i32()
+            o["pw"] = r.blob()
+    return o
+
+
+FN_OF_KIND = {0: "radius_pkt_attr_add", 1: "radius_pkt_attr_add_uint32", 2: "radius_pkt_attr_add_addr",
+              3: "radius_pkt_attr_add_port", 4: "radius_pkt_attr_add_raw"}
+
+
+def eval_rad_build(ctx, obs):
+    p = ctx.params
+    o = read_rad_build(obs, len(p["attrs"]))
+    code, bufsize = p["code"], p["bufsize"]
+    key = unhx(p["key"])
+    req = unhx(p["req"])
+    ctx.count("rad_build_cases")
+    if bufsize < 20:
+        ctx.cls("rad", "init", code, "buf<20", "refused" if o["init_rc"] else "accepted")
+        if o["init_rc"] == 0:
+            ctx.viol("oracle:radius_pkt_init:accepted-too-small-buffer", bufsize=bufsize)
+        return
+    if o["init_rc"] != 0 or o["init_size"] != 20:
+        ctx.viol("oracle:radius_pkt_init:refused-valid", rc=o["init_rc"], code=code, mode=p["mode"])
+        return
+    if p["mode"] == 1:
+        ident, field, req_auth = req[1], req[4:20], req[4:20]
+    else:
+        ident, req_auth = p["id"], None
+        field = unhx(p["auth"]) if code in rr.RANDOM_AUTH_CODES else rr.ZERO16
+    nonce = field
+    ref = []            # (type, value)
+    size = 20
+    nongating_sign = None
+    pw_clear = None
+    pre = o["pre"]
+    for i, (a, (rc, sret, oret, hlen)) in enumerate(zip(p["attrs"], o["attrs"])):
+        kind, t = a["kind"], a["t"]
+        d = unhx(a["data"])
+        fn = FN_OF_KIND[kind]
+        alt = None
+        must = None
+        detail = "other"
+        if kind == 0 and t == 2:
+            val = rr.pad_password(d) if len(d) <= 128 else None
+            detail = "user-password"
+            if val is not None and not any(x[0] in (2, 3) for x in ref):
+                must = True
+            if code != 1:
+                must = None
+        elif kind == 0 and t == 80:
+            val = rr.ZERO16
+            detail = "message-authenticator"
+            must = True if not any(x[0] == 80 for x in ref) else None
+        elif kind == 0:
+            val = d
+            detail = "rfc-length"
+            must = True if (rr.rfc_len_ok(t, len(d)) and t not in (2, 3, 80)) else None
+            if t == 3 and rr.rfc_len_ok(t, len(d)) and not any(x[0] == 2 for x in ref):
+                must = True
+        elif kind == 4:
+            val = d
+            detail = "raw"
+            must = True if len(d) <= 253 else None
+        elif kind == 1:
+            val = d[:4]
+            alt = d[:4][::-1]
+            detail = "uint32"
+            must = True if rr.rfc_len_ok(t, 4) else None
+        elif kind == 2:
+            if d[0] == 4:
+                tt, val, detail = t, d[1:5], "ipv4"
+            else:
+                tt, val, detail = a["t2"], d[1:17], "ipv6"
+            t = tt
+            must = True if rr.rfc_len_ok(t, len(val)) else None
+        else:
+            val = pre[size + 2:size + 6] if rc == 0 else b"\0" * 4
+            port = d[5:7] if d[0] == 4 else d[17:19]
+            if rc == 0 and val != b"\0\0" + port:
+                ctx.observe("radius:radius_pkt_attr_add_port:value-is-not-the-32-bit-port")
+            detail = "port"
+        if val is None:
+            if rc == 0:
+                ctx.viol("oracle:%s:accepted-oversized-password" % fn, index=i)
+                return
+            continue
+        fits = size + 2 + len(val) <= bufsize and len(val) <= 253
+        ctx.cls("rad", "add", fn, detail, "fits" if fits else "too-big", "ok" if rc == 0 else "refused",
+                "must" if must else "free")
+        if rc != 0:
+            if must and fits:
+                ctx.viol("oracle:%s:refused-valid-attribute:%s" % (fn, detail), index=i, rc=rc, type=t,
+                         value_len=len(val), pkt_size=size, bufsize=bufsize)
+                if detail == "user-password":
+                    nongating_sign = "user-password refused"
+                continue
+            if hlen != size:
+                ctx.viol("oracle:%s:failed-add-changed-length" % fn, index=i, expected=size, observed=hlen)
+                return
+            continue
+        if not fits:
+            ctx.viol("oracle:%s:accepted-although-too-big" % fn, index=i, pkt_size=size, bufsize=bufsize, value_len=len(val))
+            return
+        if sret != size + 2 + len(val) or oret != size or hlen != size + 2 + len(val):
+            ctx.viol("oracle:%s:wrong-size-or-offset-returned" % fn, index=i, expected=[size + 2 + len(val), size],
+                     observed=[sret, oret, hlen])
+            return
+        got = pre[size + 2:size + 2 + len(val)]
+        if alt is not None and got == alt and got != val:
+            val = alt
+        if kind == 0 and a["t"] == 2 and code == 1:
+            pw_clear = d
+        if kind == 4 and a["t"] == 2 and "pw" in a:
+            pw_clear = unhx(a["pw"])
+        if a["t"] == 2 and code != 1:
+            nongating_sign = "User-Password outside Access-Request"
+        ref.append((t, val))
+        size += 2 + len(val)
+    exp_pre = rr.build(code, ident, field, ref)
+    if pre[:size] != exp_pre:
+        d = segdiff([("code", exp_pre[0:1]), ("id", exp_pre[1:2]), ("length", exp_pre[2:4]),
+                     ("authenticator", exp_pre[4:20]), ("attributes", exp_pre[20:])], pre[:size])
+        ctx.viol("oracle:radius_pkt_attr_add:wire-mismatch:%s" % d, expected=hx(exp_pre), observed=hx(pre[:size]))
+        return
+    has_ma = any(t == 80 for t, _ in ref)
+    has_eap = any(t == 79 for t, _ in ref)
+    needs_ma = (code == 12 or has_eap) and not has_ma
+    two_ma = sum(1 for t, _ in ref if t == 80) > 1
+    if o["chk_pre"] != 0 and not needs_ma and not two_ma:
+        ctx.viol("oracle:radius_pkt_chk:rejects-built-packet", rc=o["chk_pre"], pkt=hx(exp_pre))
+        return
+    exp_list = [(t, v, off) for t, v, off in rr.parse(exp_pre)[4]]
+    if o["list_pre"] != exp_list:
+        ctx.viol("oracle:radius_pkt_attr_get_data_ptr_raw:lists-other-attributes", expected=_jl(exp_list),
+                 observed=_jl(o["list_pre"]))
+        return
+    ctx.count("rad_packets_built_and_listed")
+    # ---- sign
+    if two_ma:
+        return
+    if p["add_ma"]:
+        if has_ma:
+            ctx.observe("radius:radius_pkt_sign:add_msg_authr-with-existing-attribute:%s" %
+                        ("refused" if o["sign_rc"] else "accepted"))
+            return
+        if size + 18 > bufsize:
+            ctx.cls("rad", "sign", code, "no-room-for-ma", "refused" if o["sign_rc"] else "accepted")
+            if o["sign_rc"] == 0:
+                ctx.viol("oracle:radius_pkt_sign:accepted-although-too-big", pkt_size=size, bufsize=bufsize)
+            return
+        ref.append((80, rr.ZERO16))
+        size += 18
+        has_ma = True
+    if code == 13:
+        pass    # Status-Client: no RFC semantics; judged like Status-Server (see assumptions)
+    if code == 5 and has_ma and (not req or req[0] != 12):
+        nongating_sign = "Message-Authenticator in Accounting-Response to Accounting-Request"
+    if code in (4,) and has_ma:
+        nongating_sign = "Message-Authenticator in Accounting-Request"
+    if needs_ma and not has_ma:
+        nongating_sign = nongating_sign or "Message-Authenticator required but absent"
+    if nongating_sign:
+        ctx.observe("radius:sign-verify-not-judged:%s:sign_rc=%s:verify=%s" % (
+            nongating_sign, "0" if o["sign_rc"] == 0 else "err",
+            ("0" if o["verify"] == 0 else "err") if o.get("recv") else "n/a"))
+        ctx.cls("rad", "sign", code, "nongating", nongating_sign)
+        return
+    try:
+        exp = rr.sign(code, ident, nonce, ref, key, req_auth=req_auth)
+    except rr.RadiusError as e:
+        ctx.viol("harness:radiusref:sign-failed", error=str(e))
+        return
+    pwcls = "nopw" if pw_clear is None else "pw%d" % ((len(pw_clear) + 15) // 16)
+    ctx.cls("rad", "sign", code, "ma" if has_ma else "noma", pwcls, "add_ma" if p["add_ma"] else "found",
+            "reply-to-%d" % req[0] if req else "request", "ok" if o["sign_rc"] == 0 else "refused")
+    if o["sign_rc"] != 0:
+        ctx.viol("oracle:radius_pkt_sign:refused-valid-packet", rc=o["sign_rc"], code=code)
+        return
+    got = o["post"][:size]
+    if o["sign_size"] != size or got != exp:
+        _, _, _, _, eattrs = rr.parse(exp)
+        segs = [("header", exp[0:4]), ("authenticator", exp[4:20])]
+        for t, v, off in eattrs:
+            segs.append(("message-authenticator" if t == 80 else "user-password" if t == 2 else "attribute",
+                         exp[off:off + 2 + len(v)]))
+        d = segdiff(segs, got)
+        ctx.viol("oracle:radius_pkt_sign:differs-from-rfc:%s:%s" % (d, "request" if code in REQ_CODES else "reply"),
+                 code=code, expected=hx(exp), observed=hx(got), size=o["sign_size"])
+        return
+    ctx.count("rad_packets_signed_byte_identical")
+    if o["chk_post"] != 0:
+        ctx.viol("oracle:radius_pkt_chk:rejects-signed-packet", rc=o["chk_post"], pkt=hx(exp))
+        return
+    exp_list = [(t, v, off) for t, v, off in rr.parse(exp)[4]]
+    if o["list_post"] != exp_list:
+        ctx.viol("oracle:radius_pkt_attr_get_data_ptr_raw:lists-other-attributes:signed", expected=_jl(exp_list),
+                 observed=_jl(o["list_post"]))
+        return
+    if not o["recv"]:
+        ctx.viol("harness:rad_build:receiver-part-missing")
+        return
+    if o["r_chk"] != 0:
+        ctx.viol("oracle:radius_pkt_chk:rejects-signed-packet", rc=o["r_chk"], pkt=hx(exp))
+        return
+    if o["calc_rc"] != 0 or bytes(o["calc"]) != exp[4:20]:
+        ctx.viol("oracle:radius_pkt_authenticator_calc:differs-from-rfc", rc=o["calc_rc"], expected=hx(exp[4:20]),
+                 observed=hx(o["calc"]), code=code)
+        return
+    if o["verify"] != 0:
+        ctx.viol("oracle:radius_pkt_verify:rejects-untouched:%s" % ("request" if code in REQ_CODES else "reply"),
+                 rc=o["verify"], code=code, pkt=hx(exp))
+        return
+    if pw_clear is not None:
+        if not o["pw_present"] or o["pw_rc"] != 0 or o["pw"] != pw_clear:
+            ctx.viol("oracle:radius_pkt_verify:password-not-recovered", expected=hx(pw_clear),
+                     observed=hx(o.get("pw", b"")))
+            return
+        ctx.count("rad_passwords_recovered_in_packet")
+    ctx.count("rad_packets_verified")
+
+
+def _jl(lst):
+    return [[t, hx(v), off] for t, v, off in lst]
+
+
+def eval_rad_verify(ctx, obs):
+    p = ctx.params
+    r = R(obs)
+    chk, ver = r.i32(), r.i32()
+    accepted = chk == 0 and ver == 0
+    pkt, key, req = unhx(p["pkt"]), unhx(p["key"]), unhx(p["req"])
+    must, reason = rr.must_reject(pkt, key, req[4:20] if req else None)
+    reason_cls = reason.split(":")[0]
+    what = p["what"]
+    code = p["code"]
+    ctx.count("rad_verify_cases")
+    ctx.cls("radverify", code, "ma" if p["has_ma"] else "noma", what, p.get("posclass", "-"),
+            "must-reject:" + reason_cls if must else "uncovered", "accepted" if accepted else "rejected")
+    if what == "untouched":
+        if must:
+            ctx.part["inconclusive"].append("reference rejects its own signed packet (%s)" % reason)
+            return
+        if not accepted:
+            ctx.viol("oracle:radius_pkt_verify:rejects-untouched:%s" % ("request" if code in REQ_CODES else "reply"),
+                     chk=chk, verify=ver, code=code)
+        else:
+            ctx.count("rad_untouched_accepted")
+        return
+    covered_code = code not in rr.RANDOM_AUTH_CODES
+    if what == "corrupt" and covered_code and p["posclass"] != "code" and not must:
+        ctx.part["inconclusive"].append("reference found an uncovered octet in a packet with computed authenticator")
+        return
+    if must:
+        ctx.count("rad_%s_must_reject" % what.replace("-", "_"))
+        if accepted:
+            if what == "wrong-secret":
+                ctx.viol("oracle:radius_pkt_verify:accepts-wrong-secret:%s" % reason_cls, code=code)
+            else:
+                ctx.viol("oracle:radius_pkt_verify:accepts-corrupted-octet:%s:%s" % (reason_cls, p["posclass"]),
+                         code=code, pos=p["pos"], mask=p["mask"])
+    else:
+        ctx.count("rad_%s_not_covered_by_any_authenticator" % what.replace("-", "_"))
+
+
+def eval_rad_pw(ctx, obs):
+    p = ctx.params
+    r = R(obs)
+    e_rc, e_ret, ebuf = r.i32(), r.u64(), r.blob()
+    d_rc, d_ret, dbuf = r.i32(), r.u64(), r.blob()
+    pw, key, auth = unhx(p["pw"]), unhx(p["key"]), unhx(p["auth"])
+    padded = rr.pad_password(pw)
+    need = len(padded)
+    exp = rr.hide_password(pw, key, auth)
+    ctx.count("rad_pw_cases")
+    blocks = need // 16
+    rel = lambda s: "exact" if s == need else "short" if s < need else "roomy"
+    ctx.cls("radpw", "encode", "blocks=%d" % blocks, "len%%16=%s" % ("0" if len(pw) % 16 == 0 else "x"), rel(p["esz"]),
+            "ok" if e_rc == 0 else "refused")
+    ctx.cls("radpw", "decode", "blocks=%d" % blocks, rel(p["dsz"]), "ok" if d_rc == 0 else "refused")
+    if p["esz"] >= need:
+        if e_rc != 0 or e_ret != need:
+            ctx.viol("oracle:radius_pkt_attr_password_encode:refused-although-fits", rc=e_rc, ret=e_ret, need=need)
+        elif ebuf[:need] != exp:
+            k = next(i for i in range(blocks) if ebuf[i * 16:i * 16 + 16] != exp[i * 16:i * 16 + 16])
+            ctx.viol("oracle:radius_pkt_attr_password_encode:differs-from-rfc2865-5.2:block-%s" %
+                     ("1" if k == 0 else "2" if k == 1 else "3+"), expected=hx(exp), observed=hx(ebuf[:need]))
+        else:
+            ctx.count("rad_pw_hidden_equal_rfc")
+    elif e_rc == 0:
+        ctx.viol("oracle:radius_pkt_attr_password_encode:accepted-too-small-buffer", esz=p["esz"], need=need)
+    if p["dsz"] >= need:
+        nul = padded.find(b"\0")
+        explen = nul if nul >= 0 else need
+        if d_rc != 0:
+            ctx.viol("oracle:radius_pkt_attr_password_decode:refused-although-fits", rc=d_rc, need=need)
+        elif dbuf[:need] != padded:
+            k = next(i for i in range(blocks) if dbuf[i * 16:i * 16 + 16] != padded[i * 16:i * 16 + 16])
+            ctx.viol("oracle:radius_pkt_attr_password_decode:does-not-invert-hiding:block-%s" %
+                     ("1" if k == 0 else "2" if k == 1 else "3+"), expected=hx(padded), observed=hx(dbuf[:need]))
+        elif d_ret != explen:
+            ctx.viol("oracle:radius_pkt_attr_password_decode:wrong-length", expected=explen, observed=d_ret)
+        else:
+            ctx.count("rad_pw_unhidden_equal_input")
+    elif d_rc == 0:
+        ctx.viol("oracle:radius_pkt_attr_password_decode:accepted-too-small-buffer", dsz=p["dsz"], need=need)
+
+
+# ----------------------------------------------------------------------------
+# runner
+# ----------------------------------------------------------------------------
+EVAL = {"dns_build": eval_dns_build, "dns_name": eval_dns_name, "rad_build": eval_rad_build,
+        "rad_verify": eval_rad_verify, "rad_pw": eval_rad_pw}
+
+NON_GATING_UBSAN = ("shift", "signed integer overflow", "misaligned", "alignment", "null pointer passed")
+
+
+def judge(part, variant, params, obs):
+    ctx = Ctx(part, variant, params)
+    op = params["op"]
+    part["evaluations"] += 1
+    if isinstance(obs, Crash):
+        key = common.crash_key(obs, op)
+        rep = obs.report or ""
+        if obs.kind == "ubsan" and any(k in rep for k in NON_GATING_UBSAN):
+            ctx.observe(key)
+            return
+        if dns_case_nongating(params):
+            ctx.observe("outside-quantifier(root/overlong name):" + key)
+            return
+        if obs.kind in ("asan", "ubsan", "signal", "hang"):
+            ctx.viol(key, report=rep[-3000:])
+            return
+        part["inconclusive"].append("driver exited on a case: %s rc=%s" % (obs.kind, obs.returncode))
+        return
+    if not obs or obs[-1] != 0x0C:
+        part["inconclusive"].append("driver did not consume the case (%s)" % op)
+        return
+    try:
+        EVAL[op](ctx, obs[:-1])
+    except (IndexError, struct.error, AssertionError) as e:
+        part["inconclusive"].append("observation of %s unreadable: %r" % (op, e))
+    if not ctx.bad and len(part["samples"]) < 2:
+        part["samples"].append({"op": op, "params": _shorten(params)})
+
+
+def _shorten(p):
+    s = json.dumps(p)
+    return p if len(s) < 1500 else {"op": p["op"], "note": "long case elided", "head": s[:600]}
+
+
+def worker(job):
+    variant, exe, idx, n_dns, n_name, n_rad, n_pw, n_ver, thorough = job
+    rng = Rng(PROP, common.seed(), idx)
+    part = common.new_part()
+    cases = []
+    for _ in range(n_dns):
+        cases.append(gen_dns_build(rng))
+    for _ in range(n_name):
+        cases.append(gen_dns_name(rng))
+    for _ in range(n_rad):
+        cases.append(gen_rad_build(rng))
+    for _ in range(n_pw):
+        cases.append(gen_rad_pw(rng))
+    nv = 0
+    k = 0
+    while nv < n_ver:
+        s = gen_rad_verify_set(rng, thorough and k % 4 == 0)
+        k += 1
+        cases.extend(s)
+        nv += len(s)
+    rng.shuffle(cases)
+    res = common.run_cases(exe, [payload_of(c) for c in cases])
+    if len(res) != len(cases):
+        part["inconclusive"].append("driver returned %d observations for %d cases" % (len(res), len(cases)))
+    for c, o in zip(cases, res):
+        judge(part, variant, c, o)
+    return part
+
+
+RULE = (
+    "Cases are drawn from splitmix64 streams (VERIF_SEED, worker index). DNS: a message is a header (random id, all flag "
+    "fields) followed by 0-3 questions, 0-9 resource records in AN/NS/AR order and optionally an OPT pseudo-RR, or a "
+    "'fill' sequence of 15-60 small records; owner names come from the host-name grammar in classes (short, one label, "
+    "a 63-octet label, exactly 253 and 252 octets, 20-127 one-octet labels, plus the invalid edges 64+-octet label, empty "
+    "label, trailing dot, 254 and 255-300 octets, root); types/classes/TTLs include 0, 2^31, 2^32-1 and random values; "
+    "RDATA 0-1500 octets; the heap buffer has exactly the size passed to the library and is swept around the final message "
+    "size (exact, -1, +1, cut inside a record, <12, 12, roomy). Every add is judged: fits <=> accepted, returned size, "
+    "octets equal to dnsref; the finished message must pass dns_msg_validate and parse back (info_get offsets, every "
+    "question and record, dns_msg_rr_find for a name in different letter case) to what dnsref decodes. Names are also "
+    "round-tripped through DomainNameToSequenceOfLabels / SequenceOfLabelsToDomainName and the dns_msg_* variants with "
+    "buffer sizes around the need. RADIUS: packets of every code the library knows are built with radius_pkt_init / "
+    "radius_pkt_reply_init and attr_add / add_uint32 / add_addr / add_port / add_raw from 0-20 attributes (RFC-valid "
+    "(type,length) pairs: must be accepted when they fit; odd lengths and unknown types: consistency only), optional "
+    "User-Password (0-128 octets, every 16-octet edge) and Message-Authenticator (added explicitly, pre-set with a stale "
+    "value, or by radius_pkt_sign), secrets of 1-64 octets, buffers around the final size; the packet must equal "
+    "radiusref octet for octet before and after radius_pkt_sign, pass radius_pkt_chk, list the same attributes, verify, and "
+    "give the password back. Password hiding is also checked stand-alone against RFC 2865 5.2. Reference-signed packets are "
+    "fed to radius_pkt_chk + radius_pkt_verify untouched (must be accepted), with a wrong secret and with single-octet "
+    "XOR corruptions (quick: header octets, last octet and 6 random positions; thorough: additionally every octet x 3 masks "
+    "for a quarter of the packets); a corrupted packet MUST be rejected exactly when RFC processing can detect it: "
+    "malformed layout, a present Message-Authenticator that no longer matches, or a mismatch of the computed "
+    "Request/Response Authenticator (codes 2,3,4,5,11,40-45). Octets of an Access-Request / Status-Server whose "
+    "Authenticator is a nonce are covered only through a Message-Authenticator; a corruption that removes the only "
+    "covering attribute or turns the code into 1/12/13 is therefore 'uncovered' and not judged. "
+    "A behaviour class is (protocol, operation/entry point, name class and shape | packet code, buffer relation, "
+    "Message-Authenticator/password shape, corruption position class, coverage reason, outcome)."
+)
+
+ASSUMPTIONS = [
+    "DNS header ID is an opaque cookie: the library stores the caller's uint16_t without byte swapping (dns_hdr_create, "
+    "dns_hdr_id_get are symmetric), so the reference places the two octets in memory order; the flag word is built with "
+    "the library's dns_hdr_flags_t bit-field union from individual fields and must equal the RFC 1035 4.1.1 layout.",
+    "Section counters for records are incremented by the caller (dns_hdr_an/ns/ar_inc) exactly as src/proto/dns_resolv.c "
+    "does; dns_msg_rr_add/optrr_add return the new total message size in *rr_size.",
+    "Owner names outside the property's quantifier (root = empty string, names longer than 253 octets whose labels are all "
+    "valid) are executed and recorded as observations but not judged; a message containing one is not parsed back.",
+    "A name with a trailing dot may be refused; if it is accepted it must be encoded as the same absolute name.",
+    "Labels of 0 or more than 63 octets must be refused (no RFC 1035 encoding exists).",
+    "dns_msg_rr_add is not given TYPE=OPT (41): dns_msg_rr_get_data returns the TTL of type 41 in memory order, which is "
+    "compared as raw octets for OPT records added with dns_msg_optrr_add.",
+    "dns_msg_sequence_of_labels2name is required to succeed only with name_len+2 octets of output buffer (it refuses "
+    "name_len+1 although that suffices); the property states no buffer contract for the text form.",
+    "RADIUS: User-Password only in Access-Request; passwords contain no NUL octets (RFC 2865 5.2 pads with NULs, so a NUL "
+    "is not recoverable by design); stand-alone hiding is also run on arbitrary octets.",
+    "Message-Authenticator in Accounting-Request and in an Accounting-Response answering an Accounting-Request is not "
+    "defined by RFC 2866/2869/5997; such packets are executed, recorded and not judged. Code 13 (Status-Client) has no RFC "
+    "semantics and is judged like Status-Server (nonce authenticator).",
+    "Buffers passed to the RADIUS builders are at most 4096 octets (RADIUS_PKT_MAX_SIZE); the add functions do not check "
+    "that limit themselves.",
+    "radius_pkt_verify is called after radius_pkt_chk as its comment demands; 'rejected' = either returns non-zero.",
+    "UBSan reports of kinds that cannot change results (shift, signed overflow, alignment, nonnull memcpy with size 0) are "
+    "recorded as observations; heap-buffer-overflow and every other report is a violation.",
+]
+
+
+def variants(tier):
+    v = [("asu-gcc", dict(name="c15_asu_gcc", sources=[DRIVER], san="asu", cc="gcc"))]
+    if tier == "thorough":
+        v.append(("asu-clang", dict(name="c15_asu_clang", sources=[DRIVER], san="asu", cc="clang")))
+    return v
+
+
+def run(tier):
+    report = common.Report(PROP, tier, "exploration")
+    report.rule = RULE
+    report.assumptions = ASSUMPTIONS
+    for name, mod in (("dnsref", dnsref), ("radiusref", rr)):
+        fails = mod.selftest()
+        if fails:
+            report.inconclusive.append("oracle %s failed its published vectors: %s" % (name, fails[:3]))
+            return report.finish()
+    exes = common.try_builds(report, variants(tier))
+    if "asu-gcc" not in exes:
+        report.inconclusive.append("driver does not build: %s" % report.builds)
+        return report.finish()
+    scale = 10 if tier == "thorough" else 1
+    per = dict(n_dns=420, n_name=220, n_rad=260, n_pw=120, n_ver=420)
+    jobs = []
+    idx = 0
+    nworkers = 16
+    for vname, exe in sorted(exes.items()):
+        share = scale if vname == "asu-gcc" else max(1, scale // 3)
+        for w in range(nworkers):
+            jobs.append((vname, exe, idx, per["n_dns"] * share, per["n_name"] * share, per["n_rad"] * share,
+                         per["n_pw"] * share, per["n_ver"] * share, tier == "thorough"))
+            idx += 1
+    for part in common.parallel(worker, jobs):
+        report.merge(part)
+    need = ("dns_messages_byte_identical", "dns_records_parsed_back", "dns_rr_find_checked", "dns_names_round_tripped",
+            "rad_packets_built_and_listed", "rad_pw_hidden_equal_rfc", "rad_pw_unhidden_equal_input",
+            "rad_untouched_accepted", "rad_corrupt_must_reject", "rad_wrong_secret_must_reject")
+    for k in need:
+        if report.extra.get(k, 0) == 0:
+            report.inconclusive.append("monitor '%s' observed nothing" % k)
+    return report.finish()
+
+
+def replay(path):
+    with open(path) as fh:
+        rec = json.load(fh)
+    wit = rec["witness"]
+    params = wit["params"]
+    vmap = dict(variants("thorough"))
+    vname = wit.get("variant", "asu-gcc")
+    exe = common.build(**vmap[vname])
+    res = common.run_cases(exe, [payload_of(params)])
+    part = common.new_part()
+    judge(part, vname, params, res[0])
+    print("replay %s key=%s variant=%s" % (PROP, rec["key"], vname))
+    print("params:", json.dumps(params)[:2000])
+    for k in ("expected", "observed"):
+        if k in wit:
+            print("recorded %s: %s" % (k, json.dumps(wit[k])[:1500]))
+    if isinstance(res[0], Crash):
+        print(res[0].report[-2500:])
+    keys = [k for k, _ in part["violations"]]
+    for k, w in part["violations"]:
+        print("VIOLATION reproduced key=%s" % k)
+        for f in ("expected", "observed"):
+            if f in w:
+                print("  %s: %s" % (f, json.dumps(w[f])[:1500]))
+    if rec["key"] in keys:
+        return 1
+    print("not reproduced (observed keys: %s)" % keys)
+    return 0 if not keys else 1
